@@ -83,7 +83,7 @@ AllHints == {"N", "list", "opt", "dict", "tuple", "Self"}
 
 ScopeIds == {"M", "C", "D", "F1", "F2"}
 AllNames == {"N", "K", "C", "D"}
-StrForms == {"str", "post"}          \* string literal, from __future__ import annotations
+StrForms == {"str", "post", "inner"}   \* 'list[N]',  from __future__ import annotations,  list['N']
 
 VARIABLES p,        \* placement of this program
           h,        \* hint shape of the decorated parameter
@@ -135,10 +135,11 @@ NoneAtom == Atom("none", 0)
 Unrel == Atom("unrel", 0)                  \* instance of an unrelated, differently named class
 Obj(shape, a, b) == [shape |-> shape, a |-> a, b |-> b]
 NoObj == Obj("atom", NoneAtom, NoneAtom)
-NoGot == [str |-> "na", post |-> "na", ev |-> "na"]
+NoGot == [str |-> "na", post |-> "na", inner |-> "na", ev |-> "na"]
 NoVia == [a |-> "", b |-> ""]
 Stmt(act, s, n) == [act |-> act, s |-> s, n |-> n, f |-> 0, obj |-> NoObj, got |-> NoGot,
-                    want |-> {}, via |-> NoVia, evok |-> FALSE, shared |-> FALSE]
+                    want |-> {}, via |-> NoVia, evok |-> FALSE, shared |-> FALSE,
+                    blame |-> [fm \in StrForms |-> NoVia]]
 
 NoFn == [dec |-> FALSE, ready |-> FALSE, home |-> "M", alias |-> FALSE,
          res |-> [fm \in StrForms |-> [n \in HN |-> NoRec]],
@@ -215,10 +216,11 @@ CheckSeq(lv, rm, hm, b, vias) ==
           ELSE CheckSeq(Tail(lv), rm2, hm, b, v2)
 
 \* where the proxies of callable f live (SharedProxy: in the first activation's hint object)
-Store(f) == IF fn[f].alias THEN 1 ELSE f
+\* (observed: only when the whole annotation is one string, not for list['N'])
+Store(f, fm) == IF fn[f].alias /\ fm # "inner" THEN 1 ELSE f
 Check(f, fm, obj) ==
-  IF Early(obj) # "go" THEN [out |-> Early(obj), res |-> fn[Store(f)].res[fm], vias |-> <<>>]
-  ELSE CheckSeq(Leaves(obj), fn[Store(f)].res[fm], fn[f].home, bind, <<>>)
+  IF Early(obj) # "go" THEN [out |-> Early(obj), res |-> fn[Store(f, fm)].res[fm], vias |-> <<>>]
+  ELSE CheckSeq(Leaves(obj), fn[Store(f, fm)].res[fm], fn[f].home, bind, <<>>)
 
 \* the evaluated variant: Python captured the classes when the def statement ran
 EvOk(f) == \A n \in HN : fn[f].evcap[n] # 0
@@ -373,18 +375,34 @@ EnterF2 == /\ Tick /\ pc = "M1" /\ IsFun /\ NDefs + BodyDefs <= MaxDefs
            /\ pc' = "F2" /\ last' = Stmt("EnterF2", "F2", "")
            /\ UNCHANGED <<p, h, lnames, body, ncalls>>
 
+\* attribution (not part of any property): which route gave the i-th name looked at by this
+\* call a referent other than the class C07 expects
+Blame(f, fm, obj, r, i) ==
+  IF Early(obj) # "go" \/ i > Len(r.vias) THEN ""
+  ELSE LET n == Leaves(obj)[i][1]
+           x == r.res[n]
+       IN IF x.k = "fake" THEN "fake"
+          ELSE IF x.k \in {"cap", "pin"} /\ x.c # Env(f, n)
+               THEN (IF fn[f].alias /\ fm # "inner" THEN "sharedproxy" ELSE x.o)
+          ELSE IF x.k \in {"proxy", "failed"} /\ Env(f, n) # 0 /\ i = Len(r.vias) /\ r.out = "fwdref"
+               THEN (IF x.k = "failed" THEN "cachedfailure" ELSE "unresolved")
+          ELSE ""
+
 Call(f, obj) ==
   /\ Tick /\ ncalls < MaxCalls /\ ncalls' = ncalls + 1
   /\ fn[f].ready /\ obj \in Objs
   /\ LET rs == [fm \in StrForms |-> Check(f, fm, obj)]
          vs == rs["str"].vias
      IN /\ fn' = [fn EXCEPT ![f] = GhostAfter(f, obj),
-                             ![Store(f)] = [@ EXCEPT !.res = [fm \in StrForms |-> rs[fm].res]]]
+                             ![Store(f, "str")].res["str"] = rs["str"].res,
+                             ![Store(f, "post")].res["post"] = rs["post"].res,
+                             ![Store(f, "inner")].res["inner"] = rs["inner"].res]
         /\ last' = [act |-> "Call", s |-> CurScope, n |-> "", f |-> f, obj |-> obj,
-                    got |-> [str |-> rs["str"].out, post |-> rs["post"].out, ev |-> EvOut(f, obj)],
+                    got |-> [str |-> rs["str"].out, post |-> rs["post"].out, inner |-> rs["inner"].out, ev |-> EvOut(f, obj)],
                     want |-> Want(f, obj),
                     via |-> [a |-> IF Len(vs) >= 1 THEN vs[1] ELSE "", b |-> IF Len(vs) >= 2 THEN vs[2] ELSE ""],
-                    evok |-> EvAll, shared |-> fn[f].alias]
+                    evok |-> EvAll, shared |-> fn[f].alias,
+                    blame |-> [fm \in StrForms |-> [a |-> Blame(f, fm, obj, rs[fm], 1), b |-> Blame(f, fm, obj, rs[fm], 2)]]]
   /\ UNCHANGED <<p, h, lnames, pc, bind, cls, body>>
 
 CallAny == \E f \in 1..2 : \E obj \in Objs : Call(f, obj)
@@ -405,7 +423,7 @@ UnresolvableRaises == IsCall /\ last.want = {"fwdref"} => \A fm \in StrForms : l
 \* a name is unbound but the object may decide the verdict without it: either is fine
 UnneededEither == IsCall /\ "fwdref" \in last.want => \A fm \in StrForms : last.got[fm] \in last.want
 \* the three forms of one definition agree
-FormsAgree == IsCall => /\ last.got["str"] = last.got["post"]
+FormsAgree == IsCall => /\ last.got["str"] = last.got["post"] /\ last.got["str"] = last.got["inner"]
                         /\ last.got["ev"] # "na" => last.got["ev"] = last.got["str"]
 \* the declarative side agrees with the evaluated variant wherever Python can express it
 EvaluatedIsReference == IsCall /\ last.got["ev"] # "na" => last.want = {last.got["ev"]}
